@@ -1,1 +1,69 @@
-"""stubs"""
+"""Keys, certificates and symbolic crypto (DESIGN.md section 3.2)."""
+import z3
+from ..core import (STUBS, INVOKE_STUBS, FRESH_HOOKS, LAZY_HOOKS, IFACE_CANDS, OPAQUE_IMPLEMENTS, stub, GoPanic, Inconclusive,
+                    zint, zstr, b_and, b_or, b_not, is_sym)
+from ..values import *
+from ..runner import intrinsic
+
+KEY_DYN = {0: '*crypto/rsa.PrivateKey', 1: '*crypto/ecdsa.PrivateKey', 2: 'crypto/ed25519.PrivateKey'}
+PUB_DYN = {0: '*crypto/rsa.PublicKey', 1: '*crypto/ecdsa.PublicKey', 2: 'crypto/ed25519.PublicKey'}
+for _d in list(KEY_DYN.values()):
+    OPAQUE_IMPLEMENTS[_d] = {'crypto.Signer', 'crypto.PrivateKey', 'interface{}', 'any', 'crypto.Decrypter'}
+for _d in list(PUB_DYN.values()):
+    OPAQUE_IMPLEMENTS[_d] = {'crypto.PublicKey', 'interface{}', 'any'}
+
+
+def test_key(I, kind, id):
+    ctx = I.ctx
+    keys = ctx.ghost.setdefault('testkeys', {})
+    k = (kind, id)
+    if k not in keys:
+        priv = ctx.alloc(StructV([('key', kind, id)]), 'testkey')
+        pub = ctx.alloc(StructV([('pub', kind, id)]), 'testpub')
+        certv = None
+        nrec = len(ctx.nondets)
+        if 'crypto/x509.Certificate' in I.prog.types:
+            certv = ctx.fresh('crypto/x509.Certificate', 'cert%d_%d' % (kind, id))
+            fi = I.prog.field_index('crypto/x509.Certificate', 'Raw')
+            der = tuple(ord(c) for c in 'DER:%d:%d' % (kind, id))
+            certv = certv.with_field(fi, Slice(ctx.alloc(der, 'der'), 0, len(der), len(der)))
+            fi = I.prog.field_index('crypto/x509.Certificate', 'PublicKey')
+            certv = certv.with_field(fi, Iface(PUB_DYN[kind], pub))
+        del ctx.nondets[nrec:]
+        cert = ctx.alloc(certv, 'testcert') if certv is not None else None
+        keys[k] = {'priv': priv, 'pub': pub, 'cert': cert}
+        ctx.ghost.setdefault('keycells', {})[priv.cell] = k
+        ctx.ghost.setdefault('pubcells', {})[pub.cell] = k
+        if cert is not None:
+            ctx.ghost.setdefault('certcells', {})[cert.cell] = k
+    return keys[k]
+
+
+def _conc_int(I, v, hi, what):
+    return I.ctx.concretize(v, 0, hi, what)
+
+
+@intrinsic('verifTestSigner')
+def i_test_signer(I, args, ins):
+    kind = _conc_int(I, args[0], 2, 'keykind')
+    id = _conc_int(I, args[1], 3, 'keyid')
+    return Iface(KEY_DYN[kind], test_key(I, kind, id)['priv'])
+
+
+@intrinsic('verifTestCert')
+def i_test_cert(I, args, ins):
+    kind = _conc_int(I, args[0], 2, 'keykind')
+    id = _conc_int(I, args[1], 3, 'keyid')
+    return test_key(I, kind, id)['cert']
+
+
+def _public(I, recv, args, ins):
+    ctx = I.ctx
+    k = ctx.ghost.get('keycells', {}).get(recv.cell)
+    if k is None:
+        raise Inconclusive('Public() of unknown key')
+    return Iface(PUB_DYN[k[0]], test_key(I, *k)['pub'])
+
+
+for _d in KEY_DYN.values():
+    INVOKE_STUBS[(_d, 'Public')] = _public
